@@ -105,6 +105,13 @@ type Ctx struct {
 	samples   []interface{}
 }
 
+func (c *Ctx) maxKeep() int {
+	if os.Getenv("VERIF_DEBUG_ALL") != "" {
+		return 1 << 20
+	}
+	return 40
+}
+
 func (c *Ctx) Quick() bool { return c.Tier != "thorough" }
 
 // Pick returns q in the quick tier and t in the thorough tier.
@@ -118,7 +125,7 @@ func (c *Ctx) Pick(q, t int) int {
 func (c *Ctx) isKnown(v explore.Violation) *Known {
 	for i := range c.known {
 		k := &c.known[i]
-		if k.Property == c.ID && k.Status == "known" && k.Key == v.Key {
+		if k.Property == c.ID && k.Status == "known" && globMatch(k.Key, v.Key) {
 			return k
 		}
 	}
@@ -140,7 +147,7 @@ func (c *Ctx) classify(p *Part, vs []explore.Violation, scenario string) {
 			v.Detail = map[string]interface{}{}
 		}
 		v.Detail["scenario"] = scenario
-		if len(c.newViol) < 40 {
+		if len(c.newViol) < c.maxKeep() {
 			c.newViol = append(c.newViol, v)
 		}
 	}
@@ -375,7 +382,7 @@ func runEnumShard(rq enumReq) *enumRes {
 			}
 			v.Detail["case_index"] = i
 			v.Detail["case"] = r.Desc
-			if len(res.Violations) < 60 {
+			if len(res.Violations) < 60 || os.Getenv("VERIF_DEBUG_ALL") != "" {
 				res.Violations = append(res.Violations, v)
 			}
 		}
@@ -728,11 +735,31 @@ func DebugEnum(name, tier, self string) {
 	seen := map[string]int{}
 	for _, v := range c.newViol {
 		seen[v.Key]++
-		if seen[v.Key] <= 2 {
+		if seen[v.Key] <= 2 || os.Getenv("VERIF_DEBUG_ALL") != "" {
 			fmt.Printf("  VIOL %s: %s   [case %v]\n", v.Key, truncate(v.Msg, 300), v.Detail["case"])
 		}
 	}
 	if c.broken != "" {
 		fmt.Println("  BROKEN:", c.broken)
 	}
+}
+
+// globMatch matches s against a pattern in which '*' stands for any (possibly empty) substring.
+func globMatch(pat, s string) bool {
+	if !strings.Contains(pat, "*") {
+		return pat == s
+	}
+	parts := strings.Split(pat, "*")
+	if !strings.HasPrefix(s, parts[0]) {
+		return false
+	}
+	s = s[len(parts[0]):]
+	for i := 1; i < len(parts)-1; i++ {
+		k := strings.Index(s, parts[i])
+		if k < 0 {
+			return false
+		}
+		s = s[k+len(parts[i]):]
+	}
+	return strings.HasSuffix(s, parts[len(parts)-1])
 }
